@@ -31,6 +31,9 @@ pub struct Case {
   pub root_spelling: u8,
   /// a file whose name is not UTF-8 sits in the root directory (it cannot be listed: the command must fail, not skip it)
   pub bad_name: bool,
+  /// standard output of the run is appended to a file inside the tree (`>> root/zz-run.log`): the file exists before the
+  /// walk starts, so it is one of the files
+  pub stdout_inside: bool,
   /// a unix socket and a character device are placed in the root directory (they are not regular files: never listed)
   pub specials: bool,
 }
@@ -60,7 +63,7 @@ fn t_from(v: &Value) -> Option<T> {
 
 impl Case {
   fn to_json(&self) -> Value {
-    json!({"root": t_json(&self.root), "ignore": self.ignore, "hidden": self.hidden, "junk": self.junk, "follow": self.follow, "globs": self.globs, "specs": self.specs, "shuffle_seed": self.shuffle_seed, "specials": self.specials, "root_spelling": self.root_arg(), "file_with_non_utf8_name": self.bad_name,
+    json!({"root": t_json(&self.root), "ignore": self.ignore, "hidden": self.hidden, "junk": self.junk, "follow": self.follow, "globs": self.globs, "specs": self.specs, "shuffle_seed": self.shuffle_seed, "specials": self.specials, "root_spelling": self.root_arg(), "file_with_non_utf8_name": self.bad_name, "stdout_appended_to_a_file_in_the_tree": self.stdout_inside,
            "other_options": self.noise()})
   }
   /// other options of create riding along (a function of the case's seed, so that a replay repeats them);
@@ -88,6 +91,7 @@ impl Case {
       shuffle_seed: v.get("shuffle_seed").and_then(|s| s.as_u64()).unwrap_or(0),
       root_spelling: match v.get("root_spelling").and_then(|s| s.as_str()) { Some("root/") => 1, Some("root/.") => 2, _ => 0 },
       bad_name: v.get("file_with_non_utf8_name").and_then(|b| b.as_bool()).unwrap_or(false),
+      stdout_inside: v.get("stdout_appended_to_a_file_in_the_tree").and_then(|b| b.as_bool()).unwrap_or(false),
       specials: v.get("specials").and_then(|b| b.as_bool()).unwrap_or(false),
     })
   }
@@ -130,6 +134,19 @@ fn gen(rng: &mut Rng) -> Case {
     2 => T::LinkDir(gen_entries(rng, 1, false)),
     _ => T::Dir(gen_entries(rng, 0, true)),
   };
+  // now and then a wide, flat tree: more files than any small-input shortcut of a sort, sizes from a handful of values
+  // so that ties are everywhere, a few sub-directories among them
+  let root = if matches!(root, T::Dir(_)) && rng.chance(1, 8) {
+    let n = rng.range(33, 90);
+    let mut es: Vec<(String, T)> = (0..n).map(|i| (format!("{}{i:02}", rng.pick(&["f", "g", "e"])), T::File(*rng.pick(&[0usize, 1, 1, 2, 3])))).collect();
+    es.push(("d".into(), T::Dir((0..rng.below(6)).map(|i| (format!("x{i}"), T::File(*rng.pick(&[1usize, 2, 3])))).collect())));
+    es.push(("e".into(), T::Dir((0..rng.below(20)).map(|i| (format!("f{i:02}"), T::File(*rng.pick(&[1usize, 2, 3])))).collect())));
+    es.sort_by(|a, b| a.0.cmp(&b.0));
+    es.dedup_by(|a, b| a.0 == b.0);
+    T::Dir(es)
+  } else {
+    root
+  };
   let globs_pool = ["*.txt", "!*.txt", "a*", "!a*", "c/*", "!c/*", "*b*", "?", "[ab]", "![ab]*", "*", "!*", "*/*", "a", "!b", "*.md", "c/a", ".hid", "!.*", "*/.a",
     // the empty glob (matches nothing), a name that begins with the negation mark, commas and alternatives
     "", "!!a", "!a", "*.{txt,md}", "{a,b}", "!{a,c}*", "a,b", "*,*"];
@@ -157,6 +174,7 @@ fn gen(rng: &mut Rng) -> Case {
     root_spelling: *rng.pick(&[0u8, 0, 0, 1, 2]),
     // (only without globs: whether a glob would have excluded such a name first is not something the statement pins)
     bad_name: globs.is_empty() && rng.chance(1, 12),
+    stdout_inside: rng.chance(1, 10),
     specials: rng.chance(1, 4),
   }
 }
@@ -309,6 +327,10 @@ fn spec(c: &Case) -> Result<Option<Vec<Vec<String>>>, ()> {
   }
   let mut found = Vec::new();
   spec_walk(c, &c.root, &mut Vec::new(), &mut found);
+  if c.stdout_inside && matches!(c.root, T::Dir(_)) {
+    // (nothing is printed without --show/--link, so the file stays empty)
+    found.push((vec!["zz-run.log".to_string()], 0));
+  }
   let keep = |p: &Vec<String>| -> bool {
     let joined = p.join("/");
     let mut decided = None;
@@ -457,6 +479,9 @@ fn observe(ctx: &Ctx, c: &Case) -> Obs {
   }
   args.extend(c.noise());
   let mut cmd = Cmd::args_owned(&ctx.imdl, args).cwd(&sb.root);
+  if c.stdout_inside && matches!(c.root, T::Dir(_)) {
+    cmd = cmd.stdout_to(&sb.path("root/zz-run.log"));
+  }
   if home_env {
     let home = sb.path("home");
     cmd = cmd.env("HOME", &home.to_string_lossy()).env("XDG_CONFIG_HOME", &home.join(".config").to_string_lossy());
@@ -525,7 +550,7 @@ pub fn run(ctx: &Ctx) -> Report {
       report.fail("property", "listed-files-differ-from-documented-rules", case, d);
       continue;
     }
-    if c.globs.iter().any(|g| g.contains('{')) || c.bad_name {
+    if c.globs.iter().any(|g| g.contains('{')) || c.bad_name || (c.stdout_inside && matches!(c.root, T::Dir(_))) {
       // alternatives are outside the model's glob language; names that are not text cannot be sent to it
       report.out_of_model += 1;
       continue;
